@@ -19,7 +19,6 @@ type oblResult struct {
 
 func (P *Program) queryFor(o *Obligation, model bool) string {
 	var b strings.Builder
-	b.WriteString(P.vcText(o.vc, o.nAsserts))
 	for _, e := range o.Extra {
 		b.WriteString(e)
 		b.WriteByte('\n')
@@ -34,7 +33,7 @@ func (P *Program) queryFor(o *Obligation, model bool) string {
 	if model {
 		b.WriteString("(get-model)\n")
 	}
-	return b.String()
+	return P.vcText(o.vc, o.nAsserts, b.String())
 }
 
 func (P *Program) discharge(obls []*Obligation, dir string, timeoutMs int, all bool, filter string) []oblResult {
